@@ -2,7 +2,7 @@
 import re
 import mir
 import sql
-from mir import term_str, strip, callee_name
+from mir import term_str, strip, callee_name, strip_refs
 
 SERVE = "InboundQueryService::process_inbound::{closure#0}"
 DB = "database::graph_database::GraphDatabaseService::"
@@ -318,16 +318,22 @@ def run(P, C, tier):
             DBROOM = of_type(rb, r"^Option<\[u8; 16\]>$")   # the row's own room as read from storage
             ok = bool(pushes)
             for bi, t in pushes:
-                g = rb.guards(bi, expand_vars=False)
+                # implied guards: `let in_room = matches!(&db_room_id, Some(rid) if rid.eq(room_id)); if !in_room { continue }`
+                g = rb.implied_guards(bi, expand_vars=False)
                 eq = False
                 for s_, vals, term in g:
                     atom, truth = mir.cond_atoms(term, vals)
                     if atom[0] == "call" and atom[1].endswith("::eq") and truth is True and len(atom[2]) == 2:
                         x, y = atom[2]
 
-                        def from_row(z):
+                        def from_row(z, depth=0):
                             z = mir.strip(z)
-                            return DBROOM(z) or (z[0] == "var" and any(DBROOM(d) for d in rb.var_defs(z)))
+                            if DBROOM(z):
+                                return True
+                            if z[0] == "var" and depth < 4:
+                                # pattern bindings may be chained (`matches!(&x, Some(rid) if ..)` binds a reference to the binding)
+                                return any(DBROOM(d) or from_row(d, depth + 1) for d in rb.var_defs(z))
+                            return False
                         if (from_row(x) and mir.strip(y)[0] == "param" and ROOMP(y)) or (from_row(y) and mir.strip(x)[0] == "param" and ROOMP(x)):
                             eq = True
                 some = any((mir.discr_variants(term, vals) or (None, []))[1] == ["Some"] and DBROOM(term) for s_, vals, term in g)
@@ -336,7 +342,7 @@ def run(P, C, tier):
     # ---- R4: who may extend the allowed set
     inserts = []
     for body in P.bodies.values():
-        for bi, t in body.calls_to(r"HashSet::insert$"):
+        for bi, t in body.calls_to(r"HashSet::insert$|HashSet.*::extend$"):
             a = body.call_args(bi)
             if mir.mentions(a[0], "allowed_room"):
                 inserts.append((body, bi, a))
@@ -367,6 +373,17 @@ def run(P, C, tier):
         for bi, t in ins:
             g = rfp.guards(bi)
             ok = ok and has_guard(g, r"Room::is_user_valid_at$", True, lambda a: mir.strip(a)[0] == "param" and rfp.root_type(mir.strip(a)) == "i64")
+        if not ins:
+            # iterator form: `self.rooms.iter().filter(|(_, room)| room.is_user_valid_at(key, date)).map(|(id, _)| *id).collect()`
+            ret = rfp.place_term([0], 0, True)
+            f_ = mir.has_call(ret, r"Iterator::filter$")
+            if mir.has_call(ret, r"Iterator::collect$") is not None and f_ is not None and len(f_[2]) == 2 and "rooms" in term_str(f_[2][0]):
+                clo = strip_refs(f_[2][1])
+                cb_ = P.bodies.get(clo[2]) if clo[0] == "aggr" and clo[1] == "closure" else None
+                if cb_ is not None:
+                    rv_ = strip_refs(cb_.place_term([0], 0, True))
+                    if rv_[0] == "call" and rv_[1].endswith("Room::is_user_valid_at") and any(mir.strip(x)[0] == "upvar" and cb_.upvar_type(mir.strip(x)[1]) == "i64" for x in rv_[2]):
+                        ok = True
         C.ob("R4", "rooms_for_peer:dated-membership", ok, rfp.loc(), "a room enters the result only under is_user_valid_at(key, date)==true")
         gsrv = P.body("GraphDatabaseService::get_rooms_for_peer")
         now = False
